@@ -65,6 +65,8 @@ def run(rep, tier):
         linebreak(rep, c, sfx)
         leaftest(rep, c, sfx)
         lenstep(rep, c, sfx)
+        if cfg == "pestall":
+            serialspan(rep, c, sfx)
 
 
 # ------------------------------------------------------------------ CTOR
@@ -145,7 +147,7 @@ def link(rep, c, sfx):
                 r.violation("%s:start-missing" % key, where(ev[ei].node), "a path pushes End without a Start")
                 continue
             f = {x["name"]: x["e"] for x in ev[ei].node["fields"]}
-            sid = hirq.local_id(f.get("start_token_index", {}))
+            sid = hirq.root_let(hirq.local_id(f.get("start_token_index", {})), lets)
             ok = False
             if sid in lets and is_queue_len(lets[sid][0]):
                 li = hirq.index_of(ev, lambda e: e.kind == "let" and e.node is lets[sid][1])
@@ -159,7 +161,7 @@ def link(rep, c, sfx):
                      and peel(x.node["l"]).get("name") == "end_token_index"]
             okp = False
             if patch:
-                nid = hirq.local_id(patch[-1].node["r"])
+                nid = hirq.root_let(hirq.local_id(patch[-1].node["r"]), lets)
                 if nid in lets and is_queue_len(lets[nid][0]):
                     li = hirq.index_of(ev, lambda x: x.kind == "let" and x.node is lets[nid][1])
                     between = [x for x in ev[li:ei] if x.kind == "call" and callee(x.node) in (
@@ -169,7 +171,7 @@ def link(rep, c, sfx):
                 pm = next((g for g in reversed(ev[:ev.index(patch[-1])]) if g.kind == "arm"), None)
                 if pm is not None:
                     scr = peel(pm.node["scrut"])
-                    if not (kind(scr) == "Index" and hirq.local_id(scr["idx"]) == sid):
+                    if not (kind(scr) == "Index" and hirq.root_let(hirq.local_id(scr["idx"]), lets) == sid):
                         okp = False
             if not okp:
                 r.violation("%s:end-index" % key, where(ev[ei].node), "Start.end_token_index is not patched with "
@@ -648,3 +650,54 @@ def lenstep(rep, c, sfx):
                                     % (short, st["name"], pl[2][0], "loop" if in_loop else "non-constant"))
 
 
+
+
+# ------------------------------------------------------------------ SERIALSPAN (pretty-print)
+
+def serialspan(rep, c, sfx):
+    r = rep.rule("C04.SERIALSPAN" + sfx, 1,
+                 "the span a sibling list reports in its JSON/serde form is the span of its window: from the token at "
+                 "window.start to the token at window.end - 1 (or (0, 0) for an empty window) - computed from the two "
+                 "window bounds, not from iterating the list (the last *descendant* ends before the last sibling does)")
+    fns = [b for b in c.bodies if b.get("impl_self") == "pest::iterators::pairs::Pairs" and b.get("impl_trait")
+           and "Serialize" in str(b.get("impl_trait")) and b.get("body") is not None]
+    if not fns:
+        r.lost("Serialize for Pairs")
+        return
+    for fn in fns:
+        lets = hirq.lets(fn["body"])
+        # tuple-pattern lets: id -> init of the whole tuple
+        tlets = {}
+        for st in walk(fn["body"]):
+            if st.get("k") == "Let" and st.get("init") is not None and st["pat"].get("k") == "PTuple":
+                for (bid, nm) in hirq.pat_bindings(st["pat"]):
+                    tlets[bid] = st["init"]
+        sites = [x for x in walk(fn["body"]) if kind(x) == "MethodCall" and x["m"] == "serialize_field"
+                 and hirq.lit_value(peel(x["args"][0])) == "pos"]
+        if not sites:
+            r.lost("serialize_field(\"pos\", ..) in Serialize for Pairs")
+            continue
+        for s in sites:
+            r.instance("pos", where(s))
+            seen = []
+            todo = [s["args"][1]]
+            depth = 0
+            while todo and depth < 40:
+                depth += 1
+                e = todo.pop()
+                for y in walk(e):
+                    seen.append(y)
+                    if kind(y) == "Path" and y.get("res") == "local":
+                        if y["id"] in lets:
+                            todo.append(lets[y["id"]][0])
+                        elif y["id"] in tlets:
+                            todo.append(tlets[y["id"]])
+            fields = set(y["name"] for y in seen if kind(y) == "Field" and "Pairs" in y.get("bty", ""))
+            calls = set(str(callee(y)) for y in seen if kind(y) in ("Call", "MethodCall") and callee(y))
+            iterating = sorted(cl for cl in calls if cl.split("::")[-1] in (
+                "peek", "next", "next_back", "last", "flatten", "nth", "count", "collect", "into_inner", "tokens"))
+            if not ({"start", "end"} <= fields) or iterating:
+                r.violation("pos", where(s), "the serialized span of a Pairs is computed from %s (fields read: %s): for "
+                            "`[1]` the inner list of `value(0,3)` is then dumped as [0,2]" % (
+                                ", ".join(x.split("::")[-1] + "()" for x in iterating) or "something other than the window bounds",
+                                sorted(fields)))
